@@ -812,6 +812,21 @@ type exitPath struct {
 	ret   *ssa.Return
 	facts []Fact      // what holds on this path
 	vals  []ssa.Value // the result values on this path
+	via   []*ssa.BasicBlock // the blocks the path is known to come through (the incoming edges chosen at merges)
+}
+
+// passes: instruction in is executed on every run of this exit path (it is in a block that
+// dominates the Return or one of the blocks the path is known to come through).
+func (p exitPath) passes(in ssa.Instruction) bool {
+	if in.Block() == p.ret.Block() || in.Block().Dominates(p.ret.Block()) {
+		return true
+	}
+	for _, b := range p.via {
+		if in.Block() == b || in.Block().Dominates(b) {
+			return true
+		}
+	}
+	return false
 }
 
 func exitPaths(fn *ssa.Function) []exitPath {
@@ -835,7 +850,7 @@ func exitPaths(fn *ssa.Function) []exitPath {
 			if dead[j] {
 				continue
 			}
-			q := exitPath{ret: p.ret}
+			q := exitPath{ret: p.ret, via: append(append([]*ssa.BasicBlock{}, p.via...), pred)}
 			for _, v := range p.vals {
 				if ph, ok := v.(*ssa.Phi); ok && ph.Block() == b {
 					q.vals = append(q.vals, ph.Edges[j])
